@@ -664,6 +664,12 @@ func (r *runner) invariants(i int, op Op) *vt.Failure {
 	if f := r.sameScan(i, "two consecutive scans", seq1, seq2, false); f != nil {
 		return f
 	}
+	for j := 1; j < len(seq1); j++ {
+		if r.keyCmp.Compare(seq1[j-1], seq1[j]) > 0 {
+			return fail("C14/scan-order/sequential-plan", "step %d (%s): scan at parallelism 1 not in pool-key order (%s %v) at %d: %s then %s",
+				i, op.Kind, strings.Join(r.c.Pool.Key, "."), r.c.Pool.Order(), j, oracle.Show(seq1[j-1]), oracle.Show(seq1[j]))
+		}
+	}
 	if d := oracle.SameMultiset(got, seq1); d != "" {
 		return fail("C14/parallel-vs-sequential-content", "step %d: parallel and sequential scans differ in content: %s", i, d)
 	}
